@@ -18,6 +18,7 @@ type Config struct {
 	MaxDepth      int  // expression depth
 	HostImports   int  // max imported host functions (module "env")
 	CanonNaN      bool // canonicalise NaNs after non-deterministic float instructions
+	NoNaNOps      bool // leave out every instruction whose NaN results the specification leaves open (for programs that are edited afterwards: an edit can take the canonicalisation apart)
 	Fuel          bool // fuel global: every function entry and loop header burns fuel, traps at 0
 	FuelInit      int32
 	MemPages      []uint32 // candidate minimum sizes; nil = {0,1,1,1,1,2,3}
@@ -135,6 +136,9 @@ func Generate(t *rapid.T, cfg Config) *Module {
 	for i := range OpTable {
 		op := &OpTable[i]
 		if cfg.Features&op.Feat != op.Feat {
+			continue
+		}
+		if cfg.NoNaNOps && op.NaN {
 			continue
 		}
 		if len(op.Results) == 1 {
@@ -523,7 +527,33 @@ func (g *gen) module() {
 	if cfg.Customs && g.chance(35, "dwarf") {
 		// minimal well-formed DWARF (one compilation-unit header, empty abbreviation table): the
 		// engines then keep per-instruction source offsets and symbolise traps through them
-		if g.chance(40, "synthdwarf") {
+		if g.chance(20, "partialdwarf") {
+			// a partially stripped binary: any subset of the DWARF v4/v5 section names, each empty,
+			// with a few arbitrary bytes, or with well-formed content (a valid module whatever
+			// its custom sections hold: debug information must never decide whether it runs)
+			names := []string{".debug_info", ".debug_abbrev", ".debug_line", ".debug_str", ".debug_ranges", ".debug_loc", ".debug_addr", ".debug_line_str", ".debug_str_offsets", ".debug_rnglists", ".debug_loclists", ".debug_aranges", ".debug_frame"}
+			good := map[string][]byte{}
+			for _, cs := range g.synthDWARF() {
+				good[cs.Name] = cs.Data
+			}
+			for _, n := range names {
+				if !g.chance(30, "hassection") {
+					continue
+				}
+				var data []byte
+				switch g.intn(4, "sectiondata") {
+				case 0:
+				case 1:
+					for i, k := 0, g.rng(1, 12, "garbagelen"); i < k; i++ {
+						data = append(data, byte(g.intn(256, "garbage")))
+					}
+				default:
+					data = good[n]
+				}
+				m.Customs = append(m.Customs, wasmenc.Custom{Name: n, Data: data})
+			}
+			g.stat("dwarf-partial")
+		} else if g.chance(40, "synthdwarf") {
 			m.Customs = append(m.Customs, g.synthDWARF()...)
 			g.stat("dwarf-synthetic")
 		} else if len(cfg.DebugSections) > 0 && g.chance(60, "realdwarf") {
